@@ -55,6 +55,14 @@ type (
 	imNestIfaceOpt struct {
 		I imIface `serix:",inlined,optional"`
 	}
+	imImplC struct {
+		Radius uint8 `serix:"radius"`
+		Foo    uint8 `serix:"foo,omitempty"`
+	}
+	imNestCodec struct {
+		Level uint8   `serix:"level"`
+		Note  imCodec `serix:",inlined"`
+	}
 	imArr   [4]byte
 	imBlob  []byte
 	imCodec struct {
@@ -64,6 +72,7 @@ type (
 
 func (imImplA) imIface() {}
 func (imImplB) imIface() {}
+func (imImplC) imIface() {}
 
 func (m imCodec) EncodeJSON() (any, error) {
 	o := orderedmap.New()
@@ -126,7 +135,9 @@ func imMembers() []imMember {
 		{"ptr_embedding_keyed_struct", reflect.TypeOf(&imEmbKeyed{}), []any{(*imEmbKeyed)(nil), &imEmbKeyed{ImBase{V: 5}}}},
 		{"nested_inlined_foo", reflect.TypeOf(imNestFoo{}), []any{imNestFoo{}, imNestFoo{In: imFoo{Foo: 42}}}},
 		{"ptr_nested_inlined_foo", reflect.TypeOf(&imNestFoo{}), []any{(*imNestFoo)(nil), &imNestFoo{In: imFoo{Foo: 42}}}},
-		{"iface", ifaceT, []any{nil, imImplA{Foo: 42}, imImplB{Bar: 8}}},
+		{"iface", ifaceT, []any{nil, imImplA{Foo: 42}, imImplB{Bar: 8}, imImplC{Radius: 2}, imImplC{Radius: 2, Foo: 3}}},
+		{"nested_inlined_json_codec", reflect.TypeOf(imNestCodec{}), []any{imNestCodec{}, imNestCodec{Level: 1, Note: imCodec{Foo: 9}}}},
+		{"ptr_nested_inlined_json_codec", reflect.TypeOf(&imNestCodec{}), []any{(*imNestCodec)(nil), &imNestCodec{Level: 1, Note: imCodec{Foo: 9}}, &imNestCodec{}}},
 		{"nested_inlined_iface", reflect.TypeOf(imNestIface{}), []any{imNestIface{}, imNestIface{I: imImplA{Foo: 42}}, imNestIface{I: imImplB{Bar: 8}}}},
 		{"ptr_nested_inlined_optional_iface", reflect.TypeOf(&imNestIfaceOpt{}), []any{(*imNestIfaceOpt)(nil), &imNestIfaceOpt{}, &imNestIfaceOpt{I: imImplA{Foo: 42}}, &imNestIfaceOpt{I: imImplB{Bar: 8}}}},
 		{"typed_byte_array", reflect.TypeOf(imArr{}), []any{imArr{}, imArr{1, 2, 3, 4}}},
@@ -143,7 +154,7 @@ func imMembers() []imMember {
 // reach only part of this grid; the audit rounds found most of their JSON-form cases in it.
 func TestInlinedMemberMatrix(t *testing.T) {
 	const check = "inlined_member_matrix"
-	stats.Rule(check, "exhaustive grid: 22 member types (struct, pointer, pointer to pointer, struct whose members can all be left out, struct with a type code, struct with a key that collides with a sibling, embedding structs, struct that inlines a struct / an interface in turn, interface, typed byte array / slice, type with a JSON codec of its own; by value and through pointers) x tag {inlined; inlined,optional; inlined,omitempty} x holder with/without a type code x every listed member value (zero/nil, set, set-but-empty) x sibling `foo,omitempty` zero or 1 x validation on/off. Oracle: if Encode accepts the value, Decode reads everything back to an equal value; if JSONEncode accepts it, JSONDecode succeeds and yields an equal value (a type that serix refuses as a whole, an encoder that refuses the value: counted, fine). Distinct by grid cell; non-trivial = JSONEncode accepted the value")
+	stats.Rule(check, "exhaustive grid: 24 member types (struct, pointer, pointer to pointer, struct whose members can all be left out, struct with a type code, struct with a key that collides with a sibling, embedding structs, struct that inlines a struct / an interface in turn, interface, typed byte array / slice, type with a JSON codec of its own; by value and through pointers) x tag {inlined; inlined,optional; inlined,omitempty} x holder with/without a type code x every listed member value (zero/nil, set, set-but-empty) x sibling `foo,omitempty` zero or 1 x validation on/off. Oracle: if Encode accepts the value, Decode reads everything back to an equal value; if JSONEncode accepts it, JSONDecode succeeds and yields an equal value (a type that serix refuses as a whole, an encoder that refuses the value: counted, fine). Distinct by grid cell; non-trivial = JSONEncode accepted the value")
 	ctx := context.Background()
 	ifaceT := reflect.TypeOf((*imIface)(nil)).Elem()
 	cells := 0
@@ -155,18 +166,12 @@ func TestInlinedMemberMatrix(t *testing.T) {
 					{Name: "M", Type: mem.typ, Tag: reflect.StructTag(`serix:"` + tag + `"`)},
 					{Name: "Foo", Type: reflect.TypeOf(uint8(0)), Tag: `serix:"foo,omitempty"`},
 				})
-				api := serix.NewAPI()
+				api := imAPI(t)
 				must := func(err error) {
 					if err != nil {
 						t.Fatalf("registration: %v", err)
 					}
 				}
-				must(api.RegisterTypeSettings(imTyped{}, serix.TypeSettings{}.WithObjectType(uint8(9))))
-				must(api.RegisterTypeSettings(imArr{}, serix.TypeSettings{}.WithObjectType(uint8(4))))
-				must(api.RegisterTypeSettings(imBlob{}, serix.TypeSettings{}.WithObjectType(uint8(5)).WithLengthPrefixType(serix.LengthPrefixTypeAsByte)))
-				must(api.RegisterTypeSettings(imImplA{}, serix.TypeSettings{}.WithObjectType(uint8(1))))
-				must(api.RegisterTypeSettings(imImplB{}, serix.TypeSettings{}.WithObjectType(uint8(2))))
-				must(api.RegisterInterfaceObjects((*imIface)(nil), imImplA{}, imImplB{}))
 				if typedHolder {
 					// (code 1 is also the code of an implementation of the interface)
 					must(api.RegisterTypeSettings(reflect.New(holderT).Elem().Interface(), serix.TypeSettings{}.WithObjectType(uint8(1))))
@@ -273,7 +278,8 @@ func imAPI(t *testing.T) *serix.API {
 	must(api.RegisterTypeSettings(imBlob{}, serix.TypeSettings{}.WithObjectType(uint8(5)).WithLengthPrefixType(serix.LengthPrefixTypeAsByte)))
 	must(api.RegisterTypeSettings(imImplA{}, serix.TypeSettings{}.WithObjectType(uint8(1))))
 	must(api.RegisterTypeSettings(imImplB{}, serix.TypeSettings{}.WithObjectType(uint8(2))))
-	must(api.RegisterInterfaceObjects((*imIface)(nil), imImplA{}, imImplB{}))
+	must(api.RegisterTypeSettings(imImplC{}, serix.TypeSettings{}.WithObjectType(uint8(3))))
+	must(api.RegisterInterfaceObjects((*imIface)(nil), imImplA{}, imImplB{}, imImplC{}))
 
 	return api
 }
@@ -284,7 +290,7 @@ func imAPI(t *testing.T) *serix.API {
 // with a type code): whatever JSONEncode accepts has to come back unchanged.
 func TestInlinedMemberPairs(t *testing.T) {
 	const check = "inlined_member_pairs"
-	stats.Rule(check, "exhaustive grid: ordered pairs of the 22 member types of inlined_member_matrix x tag {inlined; inlined,optional; inlined,omitempty} for each of the two x every listed value of both members (validation off). Oracle as in inlined_member_matrix: what Encode accepts, Decode reads back completely and equal; what JSONEncode accepts, JSONDecode reads back equal; no panic. Distinct by grid cell; non-trivial = JSONEncode accepted the value")
+	stats.Rule(check, "exhaustive grid: ordered pairs of the 24 member types of inlined_member_matrix x tag {inlined; inlined,optional; inlined,omitempty} for each of the two x every listed value of both members (validation off). Oracle as in inlined_member_matrix: what Encode accepts, Decode reads back completely and equal; what JSONEncode accepts, JSONDecode reads back equal; no panic. Distinct by grid cell; non-trivial = JSONEncode accepted the value")
 	ctx := context.Background()
 	api := imAPI(t)
 	tags := []string{",inlined", ",inlined,optional", ",inlined,omitempty"}
